@@ -269,6 +269,21 @@ MUTANTS += [
         "        AST::AssignArray{array: Box::new(array), index: Box::new(index), value: Box::new(v)},", "        AST::AssignArray{array: Box::new(array), index: Box::new(v), value: Box::new(index)},")]),
 ]
 
+MUTANTS += [
+    dict(id="M81", props=["C01", "C14"], what="AccessArray arm registers \"set\"", edits=[(C,
+        'let name = program.constant_pool.register(ProgramObject::String("get".to_string()));', 'let name = program.constant_pool.register(ProgramObject::String("set".to_string()));')]),
+    dict(id="M1a", props=["C01"], what="AssignField stores under the object's... wrong name constant (format of a sibling)", edits=[(C,
+        "                let index = program.constant_pool.register(ProgramObject::from_str(name));\n                active_buffer.emit(OpCode::SetField { name: index });",
+        "                let index = program.constant_pool.register(ProgramObject::from_str(\"value\"));\n                active_buffer.emit(OpCode::SetField { name: index });")]),
+    dict(id="M1b", props=["C01"], what="Integer literal registers value+0 as a Boolean when zero (wrong constant kind)", edits=[(C,
+        "                let constant = ProgramObject::Integer(*value);", "                let constant = if *value == 0 { ProgramObject::Boolean(false) } else { ProgramObject::Integer(*value) };")]),
+    dict(id="M1c", props=["C01"], what="Loop leaves `false` instead of null", edits=[(C,
+        "                if keep_result {\n                    let constant = ProgramObject::Null;", "                if keep_result {\n                    let constant = ProgramObject::Boolean(false);")]),
+    dict(id="M1d", props=["C01"], what="run compiles a fresh Null AST instead of the parsed one", edits=[(M,
+        "        let program = bytecode::compile(&ast)\n            .expect(\"Compiler error\");\n\n        evaluate_with_memory_config(&program, self.heap_size, self.heap_log.clone())\n            .expect(\"Interpreter error\")\n    }\n\n    pub fn selected_input(&self) -> Result<NamedSource> {\n        NamedSource::from(self.input.as_ref())\n    }\n}\n\nimpl BytecodeInterpreterAction",
+        "        let program = bytecode::compile(&if false { ast } else { AST::top(vec![AST::null()]) })\n            .expect(\"Compiler error\");\n\n        evaluate_with_memory_config(&program, self.heap_size, self.heap_log.clone())\n            .expect(\"Interpreter error\")\n    }\n\n    pub fn selected_input(&self) -> Result<NamedSource> {\n        NamedSource::from(self.input.as_ref())\n    }\n}\n\nimpl BytecodeInterpreterAction")]),
+]
+
 MUTANTS = [m for m in MUTANTS if m["edits"]]
 
 BENIGN = [
